@@ -241,6 +241,12 @@ def run_shard(prop: str, tier: str, seed: int, shard: int, nshards: int) -> dict
                 mod.run_case(ctx, case)
             except attach.MonitorAbort:
                 pass
+            except Exception:
+                # an exception inside the oracle / harness for ONE case: the other cases are still judged;
+                # the run cannot be 'held' any more (inconclusive unless a violation is found elsewhere)
+                ctx.count("harness_exception")
+                if crashed is None:
+                    crashed = traceback.format_exc()
             att.drain(ctx)
         ctx.current_case = None
         if hasattr(mod, "extra"):
